@@ -216,6 +216,9 @@ def guard_rules(repo, rep):
     if n < 3:
         rep.undecided('R-GUARD', 'R-GUARD::geodepy/convert.py::geo2grid::tests', where(f, f.node), 'fewer than three raising input tests were met (%d)' % n)
     common.isg_zone_rule(repo, rep, 'geo2grid', ps[2], True, {ps[0]: Rat.sym('lat'), ps[1]: Rat.sym('lon')})
+    # (the double-arithmetic truncation rule is NOT applied to the lattice: on a strip boundary - longitude 142 for ISG - the program puts
+    # the point in the western strip where exact arithmetic puts it in the eastern one; both central meridians are within half a strip
+    # width, which is all the property asks)
     common.zone_table_rule(repo, rep)
 
 
